@@ -45,7 +45,12 @@ CONFIG = {
         "translator harness/go/data/transactions/logic/zz_verif_avmtables_test.go (shared with C31/C34); constants "
         "LogicSigOffCurveVersion, varintBranchInitialSize, assemblerSaltSearchLimit are asserted by the harness",
     ],
-    "level_note": "partial: the theorems cover the binary instruction layer (encode/decode of every instruction of every version, "
-                  "programs of any length, canonical re-encoding); label resolution, the assembler's short forms and the off-curve "
-                  "salt are an executable model tied by the correspondence run; the text layer is tied only by the correspondence run",
+    "level_note": "partial: proved for ALL inputs -- the binary instruction layer (uvarint/varint, encode/decode of every instruction "
+                  "of every version incl. sub-opcodes, switch/match tables, pushints/pushbytess; programs of any length; canonical bytes "
+                  "re-encode to themselves; lax decoding of non-canonical bytes refuted) and, for the assembler's label layer model, that "
+                  "everything it accepts is the canonical encoding of a well-formed program (hence decodes to the same instructions), that "
+                  "findBranchSizes terminates within its fuel, that every resolved varint branch fills its placeholder exactly and that every "
+                  "written label offset decodes to the start of the labelled instruction. Tied only by the correspondence run: the "
+                  "composition assemble(disassemble(b)) = b at the label level (label recovery + same first pass), the off-curve salt, the static check of assembled programs, and the whole text layer (tokenizer, "
+                  "names, literals, pragmas, type tracker).",
 }
